@@ -30,6 +30,12 @@ type InformerSet struct {
 // NewInformerSet creates informers for all resources, registers them with the
 // API and fills them with the current API content (initial list).
 func NewInformerSet(api *API, name string, fresh bool) *InformerSet {
+	return newInformerSet(api, name, fresh, false)
+}
+
+// newInformerSet with cold=true creates informers that neither watch nor hold anything yet
+// (a process that has just started: each informer lists on its own, see Base.ColdStart).
+func newInformerSet(api *API, name string, fresh, cold bool) *InformerSet {
 	s := &InformerSet{
 		Name:       name,
 		Jobs:       NewInformer(name+"/"+Jobs, Jobs, fresh),
@@ -37,6 +43,9 @@ func NewInformerSet(api *API, name string, fresh bool) *InformerSet {
 		Pods:       NewInformer(name+"/"+Pods, Pods, fresh),
 	}
 	for _, inf := range s.All() {
+		if cold {
+			continue
+		}
 		api.Watch(inf)
 		inf.SyncFrom(api.List(inf.Resource))
 	}
@@ -168,6 +177,15 @@ func (c *Context) Stores() controllercontext.Stores {
 
 // NewContext builds a context for one simulated process attached to api.
 func NewContext(api *API, name string, fresh bool, cfgs map[configv1alpha1.ConfigName]runtime.Object) *Context {
+	return newContext(api, name, fresh, false, cfgs)
+}
+
+// NewColdContext is NewContext with informers that have not listed yet.
+func NewColdContext(api *API, name string, cfgs map[configv1alpha1.ConfigName]runtime.Object) *Context {
+	return newContext(api, name, false, true, cfgs)
+}
+
+func newContext(api *API, name string, fresh, cold bool, cfgs map[configv1alpha1.ConfigName]runtime.Object) *Context {
 	mc := mock.NewContext()
 	api.InstallReactors(mc.MockClientsets().KubernetesMock(), mc.MockClientsets().FurikoMock())
 	if cfgs != nil {
@@ -176,7 +194,7 @@ func NewContext(api *API, name string, fresh bool, cfgs map[configv1alpha1.Confi
 	if err := mc.MockConfigs().Start(context.Background()); err != nil {
 		panic(err)
 	}
-	set := NewInformerSet(api, name, fresh)
+	set := newInformerSet(api, name, fresh, cold)
 	return &Context{
 		Context: mc,
 		Set:     set,
